@@ -35,7 +35,7 @@ def drv():
         prepare(Ctx("C20", "quick", 1))
     k = ("d", os.getpid())
     if k not in _d:
-        _d[k] = cbuild.Driver(_d["exe"])
+        _d[k] = cbuild.Driver(_d["exe"], max_line=16000)
     return _d[k]
 
 
